@@ -185,7 +185,7 @@ def _verus_prop(prop, tier, seed, unit_filters, meta_extra, extra_obs=None):
 
 
 def c02(tier, seed):
-    return _verus_prop("C02", tier, seed, [("layout", None, None), ("prim_types", None, None), ("packed", None, None), ("repr", None, None), ("clang_layout", None, None), ("union_repr", None, None), ("builtin_ty", None, None), ("bf_alloc", r"::bitfields_to_allocation_units(@clang_offsets)?::", None), ("type_layout", None, None), ("known_layouts", None, None), ("base_fields", None, None)], {
+    return _verus_prop("C02", tier, seed, [("layout", None, None), ("prim_types", None, None), ("packed", None, None), ("repr", None, None), ("clang_layout", None, None), ("union_repr", None, None), ("builtin_ty", None, None), ("bf_alloc", r"::bitfields_to_allocation_units(@clang_offsets)?::", None), ("type_layout", None, None), ("known_layouts", None, None), ("base_fields", None, None), ("bf_getters", r"::CompInfo::compute_bitfield_units::", None)], {
         "trusted_base": LAYOUT_TRUST,
         "functions_under_contract": LAYOUT_FNS + [
             "bindgen/codegen/helpers.rs: ast_ty::int_kind_rust_type, ast_ty::float_kind_rust_type (unit prim_types: fixed-width kinds get a Rust integer of the same width and sign; platform kinds the std::os::raw alias documented as equivalent; wchar_t / long double / __float128 a type of exactly the C size)",
@@ -195,6 +195,7 @@ def c02(tier, seed):
             "bindgen/codegen/mod.rs: utils::type_from_named (unit prim_types: the <stdint.h>/<stddef.h> typedef names map to the Rust primitive of the same width and signedness)",
             "bindgen/ir/context.rs: the kind-mapping statement of BindgenContext::build_builtin_ty (unit builtin_ty, let-statement R18): every libclang builtin type kind gets the bindgen kind of the same C type; complex only over floating types (found and repaired F12)",
             "bindgen/codegen/mod.rs: the body of the base-class loop of <CompInfo as CodeGenerator>::codegen (unit base_fields, shared with C03): a base without storage gets no field and leaves the tracker alone; one with storage gets exactly one field and one saw_base",
+            "bindgen/ir/comp.rs: CompInfo::compute_bitfield_units (unit bf_getters, shared with C03): bit-field units are allocated with exactly the packing CompInfo::is_packed reports (a #pragma pack(2) struct is packed although its alignment is 2)",
             "bindgen/ir/comp.rs: CompInfo::each_known_field_layout (unit known_layouts; the FnMut callback is a sink, rule R16): the #pragma pack detection of is_packed is handed the layout of EVERY member whose layout is known, in order - zero-sized members (flexible arrays) included, they still carry an alignment",
             "bindgen/ir/ty.rs: Type::layout (unit type_layout, shared with C06; rule R31): the layout every padding / alignment / blob computation starts from is clang's whenever clang computed one, and otherwise only an exact derivation",
             "bindgen/ir/comp.rs: CompInfo::is_rust_union and bindgen/codegen/mod.rs: wrap_union_field_if_needed (unit union_repr): a Rust `union` only for defined unions with --untagged-union whose members are all Copy or may be ManuallyDrop-wrapped; in it every member keeps the size/alignment of its C type; otherwise members are zero-sized markers over the blob of the tail statement",
@@ -297,7 +298,7 @@ INCRATE_TRUST = ["in-crate harness modules pulled in by cfg(kani) hook lines; Ty
 def c04(tier, seed):
     def extra():
         return units_incrate.run_spec(units_incrate.abi_spec())
-    return _verus_prop("C04", tier, seed, [("fnsig", None, None), ("ptr_lowering", None, None), ("fn_abi", r"::FunctionSig::(abi|is_variadic)::", None), ("link_name", None, None), ("method_wrapper", None, None), ("var_const", None, None), ("attrs", None, None), ("fn_args", None, None), ("mangling", None, None), ("builtin_ty", None, None), ("char_macro", r"::var_value@nonconst_initialised_F39::", None), ("typedef_methods", r"::fn_decl_signature::", None), ("prim_types", r"::(type_from_named|float_kind_rust_type)::", None)], {
+    return _verus_prop("C04", tier, seed, [("fnsig", None, None), ("ptr_lowering", None, None), ("fn_abi", r"::(FunctionSig::(abi|is_variadic)|abi_name)::", None), ("link_name", None, None), ("method_wrapper", None, None), ("var_const", None, None), ("attrs", None, None), ("fn_args", None, None), ("mangling", None, None), ("builtin_ty", None, None), ("char_macro", r"::var_value@nonconst_initialised_F39::", None), ("typedef_methods", r"::fn_decl_signature::", None), ("prim_types", r"::(type_from_named|float_kind_rust_type)::", None)], {
         "trusted_base": INCRATE_TRUST + ["calling-convention oracle: clang-c/Index.h CXCallingConv values x Rust reference ABI strings (kani_incrate/function_abi.rs)"],
         "functions_under_contract": ["bindgen/ir/function.rs: get_abi (Kani in-crate), FunctionSig::abi, FunctionSig::is_variadic (Verus unit fn_abi)",
                                      "bindgen/codegen/mod.rs: utils::fnsig_argument_type, utils::fnsig_return_ty_internal (Verus unit fnsig); the Pointer/Reference arm of <Type as TryToRustTy>::try_to_rust_ty (Verus unit ptr_lowering, block extracted by rule R18)",
@@ -307,6 +308,7 @@ def c04(tier, seed):
                                      "bindgen/ir/function.rs: cursor_declares_other_function, args_from_ty_and_cursor (iterator pipeline turned into an index loop, rule R29), and the parameter-visitor closure, the `is_own_cursor` and the `args` statements of FunctionSig::from_ty (unit fn_args): ARITY - a function prototype gets exactly the parameters it declares, each of the declared type, and the parameters of an enclosing declaration (function returning a function pointer, pointer to such a function) are never taken for its own (found and repaired F21); the child visitor never recurses",
                                      "bindgen/ir/function.rs: cursor_mangling, is_itanium_thunk and bindgen/clang.rs: the ABI-kind statement of TargetInfo::new (unit mangling; while-let R19, str operations as Seq-specified env functions R21): of the symbols libclang lists for a C++ function the binding names the last one that is the function itself - for a destructor under the Itanium ABI the complete-object destructor (never the deleting one), never a this-adjusting or covariant-return thunk (found and repaired F23); the Microsoft rules apply only to *-msvc targets",
                          "bindgen/codegen/mod.rs: the signature lookup of <Function as CodeGenerator>::codegen (unit typedef_methods, statements R18): a non-static member function declared through a typedef of a function type - whose function type has no `this` - is not declared at all (found and repaired F41: it was declared without its receiver)",
+            "bindgen/ir/function.rs: the name statement of <Abi as Display>::fmt (unit fn_abi, let-statement R18): the string written after `extern` is the Rust ABI string of the calling convention (win64 is \"win64\", not \"system\"); table transcribed from the Rust reference",
             "bindgen/codegen/mod.rs: utils::type_from_named (unit prim_types, shared with C10): a parameter, return value or global spelled with a <stdint.h>/<stddef.h> name gets the Rust primitive of the same width AND sign (ssize_t is isize, not usize)",
             "bindgen/codegen/helpers.rs: ast_ty::float_kind_rust_type (unit prim_types, shared with C02): a floating parameter or return value is a Rust FLOAT of the C size wherever Rust has one (an 8-byte long double is f64, not u64: it travels in floating-point registers)",
             "bindgen/ir/var.rs: the value statement of Var::parse (unit char_macro, witness only): a non-const global must not become a Rust constant - known finding F39",
@@ -323,11 +325,11 @@ def c04(tier, seed):
 
 
 def c05(tier, seed):
-    return _verus_prop("C05", tier, seed, [("macro_type", None, None), ("eval_int", None, None), ("char_macro", r"^(?!.*@nonconst_initialised_F39)", None), ("builtin_ty", None, None), ("cexpr_tokens", None, None), ("prim_types", r"::type_from_named::", None)], {
+    return _verus_prop("C05", tier, seed, [("macro_type", None, None), ("eval_int", None, None), ("char_macro", r"^(?!.*@nonconst_initialised_F39)", None), ("builtin_ty", None, None), ("cexpr_tokens", None, None), ("prim_types", r"::type_from_named::", None), ("enum_variant_expr", None, None)], {
         "trusted_base": ["extraction rules R1-R11; env/macro_type_env.rs: uninterpreted option reads; assume_specification for i64::from(u8|u16|u32) (lossless widening)",
                          "C-model table kind_bits/kind_signed written from the kinds' names (contracts/macro_type.py)",
                          "env/eval_int_env.rs: each libclang evaluator entry point is a distinct uninterpreted function of the result handle (rule R20: `unsafe { f(x) }` -> `{ f(x) }`, FFI functions are safe stubs); an out-of-range `u64 as i64` cast is the same (unspecified but fixed) function on both sides of the contract"],
-        "functions_under_contract": ["bindgen/ir/var.rs: the function-like-macro guard of Var::parse (unit char_macro, statements R18 up to the use of the evaluated value: a function-like macro never reaches the expression evaluator, with or without callbacks; found and repaired F31) and the `is_float` statement (a floating-point constant only for float / double variables; found and repaired F32)", "bindgen/codegen/mod.rs: utils::type_from_named (unit prim_types, shared with C04/C10): a constant or enum declared through a <stdint.h>/<stddef.h> name gets the Rust primitive of the same width and SIGN (ptrdiff_t is isize)", "bindgen/clang.rs: ClangToken::as_cexpr_token (unit cexpr_tokens): every token of a macro body except comments reaches the cexpr evaluator, under the kind libclang reports and with its spelling - dropping an operator keyword would leave a different well-formed expression", "bindgen/ir/var.rs: the value statement of Var::parse (unit char_macro, let-statement R18): the constant a variable's initialiser becomes has the shape of the variable's type (an integer or bool for integer types, a float for float / double, otherwise at most a string)", "bindgen/ir/var.rs: default_macro_constant_type", "bindgen/ir/int.rs: IntKind::is_signed, IntKind::known_size",
+        "functions_under_contract": ["bindgen/ir/var.rs: the function-like-macro guard of Var::parse (unit char_macro, statements R18 up to the use of the evaluated value: a function-like macro never reaches the expression evaluator, with or without callbacks; found and repaired F31) and the `is_float` statement (a floating-point constant only for float / double variables; found and repaired F32)", "bindgen/codegen/mod.rs: the value-expression statements of EnumBuilder::with_variant (unit enum_variant_expr, statements R18) and EnumBuilder::is_rust_enum: an enumerator of a bool-underlying enum is the integer 0/1 only as the discriminant of a Rust enum and the literal true/false in every other style, where the constant's type is bool; signed / unsigned enumerators are literals of their own value", "bindgen/codegen/mod.rs: utils::type_from_named (unit prim_types, shared with C04/C10): a constant or enum declared through a <stdint.h>/<stddef.h> name gets the Rust primitive of the same width and SIGN (ptrdiff_t is isize)", "bindgen/clang.rs: ClangToken::as_cexpr_token (unit cexpr_tokens): every token of a macro body except comments reaches the cexpr evaluator, under the kind libclang reports and with its spelling - dropping an operator keyword would leave a different well-formed expression", "bindgen/ir/var.rs: the value statement of Var::parse (unit char_macro, let-statement R18): the constant a variable's initialiser becomes has the shape of the variable's type (an integer or bool for integer types, a float for float / double, otherwise at most a string)", "bindgen/ir/var.rs: default_macro_constant_type", "bindgen/ir/int.rs: IntKind::is_signed, IntKind::known_size",
                                      "bindgen/ir/context.rs: the kind-mapping statement of BindgenContext::build_builtin_ty (unit builtin_ty, shared with C02/C04): the type of a const variable and the underlying type of an enum get the bindgen integer kind of that very C type, so the Rust type has its width and sign (char32_t: 32 bits, unsigned)",
                                      "bindgen/clang.rs: EvalResult::kind, EvalResult::as_int (which libclang getter supplies the value of a const initialiser / fallback macro); Cursor::enum_val_signed / enum_val_unsigned / enum_val_boolean (enumerator values: the getter matching the signedness)",
                                      "bindgen/codegen/mod.rs: the repr-translation statement of <Enum as CodeGenerator>::codegen (unit macro_type, let-statement R18): the translated integer type has the enum's width and signedness",
@@ -350,7 +352,7 @@ def c06(tier, seed):
             "template instantiations: a size+alignment assertion (libclang's numbers) is emitted exactly when layout tests are on, the instantiation is not opaque, uses no unbound template parameter and has a layout",
             "the block is reached only when the item has no template parameters (the surrounding `if all_template_params.is_empty()` is not part of the extracted statement)",
         ],
-        "unverified": ["that the field list handed to the closure is complete; targets other than the host (the numbers are whatever libclang reports for the target); that rustc evaluates the emitted const expressions as intended"],
+        "unverified": ["how CompInfo::from_ty discovers members and which clang offset it records for each (closures handed to libclang's visit: seeds S109, S134 are missed there); that the field list handed to the closure is complete; targets other than the host (the numbers are whatever libclang reports for the target); that rustc evaluates the emitted const expressions as intended"],
     })
 
 
@@ -377,19 +379,19 @@ def c07(tier, seed):
         "assumptions": ["necessary conditions of the least-fixed-point property: (i) joins are least upper bounds of the declared orders, (ii) every edge kind a rule reads along is in the analysis' subscription predicate, (iii) every table update is inflationary and reports Changed exactly when the table changed, (iv) the three set-valued rules compute the fact of a node from the current facts of its neighbours (fix-point equation)",
                         "(v) the driver: assuming of an analysis that constrain(n) leaves n stable, that Same changes nothing and that Changed can de-stabilise only nodes each_depending_on(n) reports (env/analyze_env.rs), analyze returns a state in which every node of the initial worklist is stable",
                         "CannotDerive::constrain IS under contract (unit constrain: node_rule = per-type rule + large-alignment conservatism, member join uninterpreted); of UsedTemplateParameters only constrain_instantiation and the dependency recording are (constrain, constrain_join, constrain_instantiation_of_blocklisted_template are NOT); CannotDerive does not satisfy the driver's assumption for NON-allowlisted sub-items (it has no dependency edges for them and relies on the seed order of its initial_worklist instead: seed S24 missed)"],
-        "unverified": ["that Item::trace hands its callback exactly the edges of the Trace impls verified in unit trace_impls (rule R27 reads them from one env accessor); CannotDerive::constrain_join (which members are joined); the initial_worklist functions (iterator chains); the loops around the dependency-recording callbacks (generate_dependencies, UsedTemplateParameters::new: that every allowlisted item is traced); the Trace impl of ObjCInterface; the getters the verified Trace impls read; completeness of the read-sets; termination; the declaration-order corollary"],
+        "unverified": ["which edge predicate each analysis' constructor hands to generate_dependencies (a function-pointer valued choice: seed S135 is missed there); that Item::trace hands its callback exactly the edges of the Trace impls verified in unit trace_impls (rule R27 reads them from one env accessor); CannotDerive::constrain_join (which members are joined); the initial_worklist functions (iterator chains); the loops around the dependency-recording callbacks (generate_dependencies, UsedTemplateParameters::new: that every allowlisted item is traced); the Trace impl of ObjCInterface; the getters the verified Trace impls read; completeness of the read-sets; termination; the declaration-order corollary"],
     }, extra_obs=extra)
 
 
 def c08(tier, seed):
     def extra():
         return units_incrate.run_spec(units_incrate.derive_tables_spec())
-    return _verus_prop("C08", tier, seed, [("impl_partialeq", None, None), ("derive_gate", None, None), ("derives", None, None), ("constrain", None, None), ("fn_abi", r"function_pointers_can_derive", None),
+    return _verus_prop("C08", tier, seed, [("prim_types", r"::BindgenContext::is_stdint_type::", None), ("impl_partialeq", None, None), ("derive_gate", None, None), ("derives", None, None), ("constrain", None, None), ("fn_abi", r"function_pointers_can_derive", None),
                                            # the float exclusion for Eq/Ord and the derive analysis' own subscriptions are C08 mechanisms too
                                            ("edges", r"::(has_float_consider_edge|consider_edge_default)::", None), ("has_float", None, None), ("union_repr", r"::(CompInfo::is_rust_union|union_field_can_copy)::", None), ("bitfield_limit", None, None), ("impl_debug", None, None), ("opaque_wrapper", None, None)], {
         "trusted_base": INCRATE_TRUST + ["env/derive_gate_env.rs: uninterpreted options and analysis lookups; generic impl<T> instantiated at T = ItemId",
                                         "rule-table oracle written from the property statement (kani_incrate/derive_tables.rs)"],
-        "functions_under_contract": ["bindgen/codegen/impl_partialeq.rs: the bit-field arm of gen_partialeq_impl (unit impl_partialeq, block R18, loop by R13): the hand-written `eq` has exactly one getter comparison per NAMED bit-field of an allocation unit, in order; an unnamed bit-field is skipped and does not end the comparison", "bindgen/codegen/mod.rs: the derive decision of a forward-declared struct in CompInfo::codegen (unit derives, let-statement R18: only Debug, and only when no option, pattern or annotation switches it off; found and repaired F34) and the statements of utils::prepend_opaque_array_types that build one wrapper definition (unit opaque_wrapper, templates by rule R4u: the __BindgenOpaqueArrayN wrappers name PartialOrd / Ord whenever those derives are requested; found and repaired F33)",
+        "functions_under_contract": ["bindgen/ir/context.rs: BindgenContext::is_stdint_type (unit prim_types, shared with C09/C10): bindgen vouches for a blocklisted <stdint.h>/<stddef.h> name only when it maps that name to a primitive itself - size_t / ssize_t only under size_t_is_usize - so traits are not derived through a user-supplied size_t", "bindgen/codegen/impl_partialeq.rs: the bit-field arm of gen_partialeq_impl (unit impl_partialeq, block R18, loop by R13): the hand-written `eq` has exactly one getter comparison per NAMED bit-field of an allocation unit, in order; an unnamed bit-field is skipped and does not end the comparison", "bindgen/codegen/mod.rs: the derive decision of a forward-declared struct in CompInfo::codegen (unit derives, let-statement R18: only Debug, and only when no option, pattern or annotation switches it off; found and repaired F34) and the statements of utils::prepend_opaque_array_types that build one wrapper definition (unit opaque_wrapper, templates by rule R4u: the __BindgenOpaqueArrayN wrappers name PartialOrd / Ord whenever those derives are requested; found and repaired F33)",
                                      "bindgen/ir/context.rs: the eight impl<T> CanDerive{Debug,Default,Copy,Hash,PartialOrd,PartialEq,Eq,Ord} for T bodies",
                                      "bindgen/ir/analysis/derive.rs: CannotDerive::constrain_type (the whole per-type rule: blocklisted, excluded by name, opaque, simple kinds, pointers/fn pointers, arrays, vectors, compounds, type references, template instantiations) and DeriveTrait::{not_by_name, can_derive_*} (Verus unit constrain; member join = uninterpreted s_join)",
                                      "bindgen/ir/comp.rs: CompInfo::has_too_large_bitfield_unit (unit bitfield_limit; Iterator::any desugared by rule R25): true exactly when SOME bit-field allocation unit is larger than the 32-element limit",
